@@ -48,8 +48,8 @@ DEST = [
      ["commonFirstPacketNotMetadataPduHandler"], ["modP", "commonFirstPacketHandler"]),
     ("handleFdWithoutMd", "(f : Bool) (o : Nat) (d : List UInt8)", "handleFdWithoutPreviousMetadata f o d",
      ["handleFdWithoutPreviousMetadata"], ["modP", "getP", "addPacket"]),
-    ("handleEofWithoutMd", "(c : List UInt8) (sz : Nat)", "handleEofWithoutPreviousMetadata env c sz",
-     ["handleEofWithoutPreviousMetadata"], ["modP", "getP", "emitInd:eofrecv", "prepareEofAckPacket"]),
+    ("handleEofWithoutMd", "(cc : Nat) (c : List UInt8) (sz : Nat)", "handleEofWithoutPreviousMetadata env cc c sz",
+     ["handleEofWithoutPreviousMetadata"], ["modP", "getP", "emitInd:eofrecv", "trigger", "prepareEofAckPacket"]),
     ("lostSegmentHandling", "(o l : Nat)", "lostSegmentHandling o l", ["lostSegmentHandling"],
      ["modP", "getP", "addPacket"]),
     ("vfsWriteData", "(n : String) (d : List UInt8) (o : Nat)", "vfsWriteData n d o", ["vfsWriteData"], []),
